@@ -3,6 +3,7 @@
 cd /verif
 for d in seeded/*/; do
   n=$(basename $d); id=${n:0:3}
+  if grep -q '"obsolete"' $d/meta.json 2>/dev/null; then echo "$n -> skipped (obsolete, see meta.json)"; continue; fi
   r=$(tools/try_patch.sh /verif/seeded/$n/patch.diff $id 2>&1 | grep -E "^(VIOLATION|OK)" | head -1 | cut -c1-90)
   echo "$n -> $r"
 done
